@@ -416,6 +416,13 @@ def run_case(idx, rng, tier, res):
                 res.cell('%s:notfound' % kind)
             else:
                 res.cell('%s:readererror' % kind)
+                # a reader error is an answer only where the documentation gives one: a size limit hit, or
+                # errors not being ignored; anywhere else a lookup ends in a file or in not-found
+                if not size_limit and not strict:
+                    present = sorted(set(u[0] for u in universe if u[0] in promise))
+                    res.violation('reader_error_unexpected', 'asked %r (options %r): the reader raised its error although '
+                                  'no size limit is set and errors are ignored; promised variants present: %s (%r)' % (
+                                      name, o, present, cell), replay=cell, kind=kind)
         res.sig = harness.stable_hash([kind, sorted(o.items()), [(d, n) for d, n, _x, _m in files]])
         if idx % 1500 in (0, 1):
             res.sample = {'reader': kind, 'options': o, 'files': ['/'.join(d + (n,)) for d, n, _x, _m in files][:20],
